@@ -28,6 +28,9 @@ BROKEN_BODY = ["while 1 { if 1 { break } if 1 { break }", "if 1 { 2 } else {", "
                ";", " ; ; ", "// d20 + 5", "// c\n", ";// x", "#c"]
 
 
+DEPTH_CAP_HEX = "调用层数过多".encode().hex()
+
+
 def well_typed(r, depth):
     t = r.choice([0, 0, 1, 2, 2, 4, 5, 6, 6, 7, 7, 8, 9, 10]) if depth > 0 else r.choice([0, 1, 2, 4])
     if t == 0:
@@ -212,6 +215,10 @@ def main(tier):
             run.nontriv(("recur", J(m)))
             if g.startswith("died") or "panic" in g:
                 run.violation("booby-trapped-value:restored-values-recurse-without-bound", {"variables": J(m), "scripts": scripts, "implementation": g[:400]})
+            elif DEPTH_CAP_HEX in g:
+                # every call costs at least 100 operations: under a budget of 30000 the budget ends a recursion after 300 levels,
+                # long before the library's own cap of 1000 calls in progress
+                run.violation("booby-trapped-value:budget-does-not-bound-the-recursion", {"variables": J(m), "scripts": scripts, "implementation": g[:400]})
         # the same families when the host keeps the variables as JSON and decodes them afresh on EVERY load (each recursion level
         # then meets a value that was never compiled): the budget still ends the run
         gl = []
@@ -224,6 +231,8 @@ def main(tier):
             run.nontriv(("recur-g", J(m), sc))
             if o.startswith("died") or o.startswith("panic"):
                 run.violation("booby-trapped-value:restored-values-recurse-without-bound", {"host_globals_decoded_on_every_load": J(m), "script": sc, "implementation": o[:400]})
+            elif DEPTH_CAP_HEX in o:
+                run.violation("booby-trapped-value:budget-does-not-bound-the-recursion", {"host_globals_decoded_on_every_load": J(m), "script": sc, "implementation": o[:400]})
         # stored functions / computed values whose body no longer parses, every cut, every arity the battery calls with
         import json as _json
         for body in BROKEN_BODY:
